@@ -339,18 +339,14 @@ def run(ctx) -> None:
     ctx.check(okf, RH, "BaseObserver.start failure path stops the failed emitter", "an emitter whose start() raised is not stopped (its buffer thread and descriptors stay)", P.find_method("BaseObserver", "start").loc)
 
     # ---------------------------------------------------------------- ownership
+    from ..fixtures import FX_FD, attr_accesses_outside, must_fire
+
+    must_fire("C12/fd-ownership", attr_accesses_outside, FX_FD, {"_inotify_fd"}, "Inotify")
     outside = []
     for m in P.modules.values():
-        for n in ast.walk(m.tree):
-            if isinstance(n, ast.Attribute) and n.attr in fds:
-                # inside class Inotify?
-                owner = None
-                for cname, ci in m.classes.items():
-                    if ci.node.lineno <= n.lineno <= (ci.node.end_lineno or 10**9):
-                        owner = cname
-                if owner != "Inotify":
-                    outside.append(f"{m.relpath}:{n.lineno} ({owner})")
-    ctx.check(not outside, RO, "descriptor fields accessed only in Inotify", f"descriptor fields touched outside Inotify: {outside}", P.cls("Inotify").loc)
+        for line, owner in attr_accesses_outside(m.tree, set(fds), "Inotify"):
+            outside.append(f"{m.relpath}:{line} ({owner})")
+    ctx.check(not outside, RO, "descriptor fields accessed only in Inotify (detector checked on a positive fixture)", f"descriptor fields touched outside Inotify: {outside}", P.cls("Inotify").loc)
     ctx.assumptions += [
         "poll() returns when the wake-up byte was written or (nondeterministically) data arrived; both cases explored",
         "reader loop bounded at 2 iterations of read_events (a third adds no new protocol state)",
